@@ -110,7 +110,7 @@ type Edit struct {
 }
 
 var rec = ev.New("C15", "c15.tree",
-	"generated directory trees (depth <=4, <=40 files; directory names normal / vendor / node_modules / .x / _x / look-alikes vendor2, x_, a.b; files: distinct valid .templ, unparsable .templ, .templ whose Go does not gofmt, stale (short, long, or the output of another template) / newer _templ.go, orphaned _templ.go, other .go and other files; explicit mtimes) "+
+	"generated directory trees (depth <=4, <=40 files; directory names normal / vendor / node_modules / .x / _x / look-alikes vendor2, x_, a.b; files: distinct valid .templ, unparsable .templ, .templ whose Go does not gofmt, stale (short, long, or the output of another template) / newer _templ.go, orphaned _templ.go, other .go and other files; explicit mtimes incl. the Unix epoch and times before it) "+
 		"x flags keep-orphaned / lazy / include-version x worker count 1..32 x GOMAXPROCS; generatecmd.Run in-process under -race - or, in a quarter of the cases, the compiled `templ generate` command as a child process - twice; in two thirds of the cases 1-4 templates are edited between the runs (replaced by another valid template with shorter or longer output, emptied, broken, or removed) and the second run is compared with the expectation for the edited tree. Oracle: an expected tree computed independently per file (single-file parse+generate+gofmt with the file's relative name; own skip rule; orphan and lazy rules); every path and byte compared; error returned iff some reachable .templ is ungenerable; without edits the second run changes no content. "+
 		"Non-trivial = tree has a skipped directory containing a .templ, an orphan, and >=2 generable files; distinct by (tree, flags, workers)")
 
@@ -459,6 +459,11 @@ var genCase = rapid.Custom(func(t *rapid.T) Case {
 			return dir + "/" + name
 		}
 		age := rapid.IntRange(0, 1000).Draw(t, "age")
+		if rapid.IntRange(0, 7).Draw(t, "oddTime") == 0 {
+			// modification times that archive and reproducible-build tooling produce: the Unix
+			// epoch itself, just before it, and 1960 (os.Chtimes cannot set times beyond 2262)
+			age = rapid.SampledFrom([]int{int(base.Unix()), int(base.Unix()) + 1, int(base.Unix()) + 315360000}).Draw(t, "oddAge")
+		}
 		switch kind := rapid.IntRange(0, 11).Draw(t, "kind"); {
 		case kind <= 4: // valid templ, maybe with an existing generated file
 			add(File{Path: p(stem + ".templ"), Content: validTempl("p", i, rapid.IntRange(0, 4).Draw(t, "variant")), Age: age})
